@@ -1,5 +1,6 @@
 import Tickit.Model.LifeOut
 import Tickit.Model.LifeTmp
+import Tickit.Model.LifeKids
 import Tickit.Gen.Life
 import Tickit.Driver.Common
 import Tickit.Driver.Sgr
@@ -312,7 +313,36 @@ def dumpTop (top : Top) : String :=
     | none => "") ++
   (if top.xterms.isEmpty then "" else " | X " ++ String.join (top.xterms.toList.map (fun x => if x.freed then "0" else "1")))
 
+/-- `kids <w> <n>`: `tickit_window_get_children` into an array of exactly `n` slots (`Model/LifeKids.lean`); the state
+    stays as it is. SPEC, in addition to the clauses of every step: the call reports no more slots than the length given. -/
+def stepKids (d : DSt) (w n : Nat) (impl : String) : DSt × String × String :=
+  let implDeadNow := impl.startsWith "CRASH"
+  let top := d.otop.top
+  let sv := specCheck d top.st (instRefs top) (xRefs top) (.focus w) impl
+  let sv := if sv ≠ "" then sv else
+    match (impl.splitOn " ").head? with
+    | some tok => match (tok.splitOn "ret=") with
+      | ["", r] => match r.toNat? with
+        | some r => if r > n then s!"tickit_window_get_children reports {r} windows stored into an array of {n}" else ""
+        | none => ""
+      | _ => ""
+    | none => ""
+  let d' := { d with implDead := d.implDead || implDeadNow }
+  match d.crashed with
+  | some c => (d', c, sv)
+  | none =>
+    if n > 64 then (d', "skip" ++ dumpTop top, sv) else
+    match kidsText top.st w n with
+    | some r => (d', r ++ dumpTop top, sv)
+    | none => ({ d' with crashed := some "CRASH exit=1" }, "CRASH exit=1", sv)
+
 def step (d : DSt) (ts : List String) (impl : String) : DSt × String × String :=
+  match ts with
+  | ["kids", w, n] =>
+    match nat? w, nat? n with
+    | some w, some n => stepKids d w n impl
+    | _, _ => (d, "bad-op", "")
+  | _ =>
   match parseYOp ts with
   | none => (d, "bad-op", "")
   | some yop =>
